@@ -207,7 +207,7 @@ func checkC18(c c18Case) error {
 	var stored2 func() (string, error)
 	switch c.Kind {
 	case "text", "invalid", "newline_with_matcher":
-		r = Call{API: "yaml", Doc: c.Doc, Form: c.Form, Matchers: c.Matchers}.invoke(cfg, ft)
+		r = Call{API: "yaml", Doc: c.Doc, Form: c.Form, Matchers: c.Matchers, EmptyMatchers: len(c.Doc)%2 == 0}.invoke(cfg, ft)
 	case "value":
 		r = Call{API: "yaml", Doc: c.Value, Form: "value"}.invoke(cfg, ft)
 		stored2 = func() (string, error) {
